@@ -58,7 +58,7 @@ impl JobCheck {
         // a host panic makes every other observation meaningless: report it first
         for (h, o) in run.hosts.iter().enumerate() {
             if let crate::run::HostOutcome::Panicked(msg) = o {
-                return Err(format!("host {h} panicked: {msg}"));
+                return Err(format!("host {h} panicked: {msg}; panics of the job: {:?}", run.ctx.panics.lock().unwrap()));
             }
         }
         if m.workers {
